@@ -1241,6 +1241,11 @@ func (e *Engine) evalBin(ctx *EvalCtx, x *Expr) (Val, error) {
 					return res, nil
 				}
 			}
+			// shift by a symbolic amount in mode int: an uninterpreted function (callers of a contract that is verified
+			// per shift amount - `split` - know nothing more about the result)
+			e.sc.Decl("fun:go.shr", "(declare-fun go.shr (Int Int) Int)")
+			res.S = fmt.Sprintf("(go.shr %s %s)", a.S, b.S)
+			return res, nil
 		}
 		if unsigned {
 			return ar("", "bvlshr", "")
